@@ -24,7 +24,7 @@ import (
 var gateLabels = map[string]bool{
 	"stage.recover.begin": true, "stage.process.begin": true, "stage.finalize.item": true, "stage.clean.begin": true,
 	// inserted by tools/maporder at the top of stage.finalizeQueue (not a line of /repo)
-	"stage.finalize.queue": true,
+	"stage.finalize.queue": true, "stage.process.queue": true,
 }
 
 // optional gates: park only when hot in this run
